@@ -253,5 +253,68 @@ func genC05(repo string) (string, error) {
 		}
 		fmt.Fprintf(&b, "def %s%s : Nat := %d\n", strings.ToLower(n[:1]), n[1:], v)
 	}
+
+	// the context's critical sections: for every method of the concurrency model, every access
+	// to the receiver in source order — mutex operations, fields, calls of other methods
+	var shapes []string
+	for _, m := range []string{"LookupTypeRecord", "LookupTypeSet", "LookupTypeMap", "LookupTypeArray", "LookupTypeUnion",
+		"LookupTypeEnum", "LookupTypeDef", "LookupTypeNamed", "LookupTypeError", "LookupByValue", "LookupTypeValue",
+		"TranslateType", "DecodeTypeValue", "enterWithLock", "nextIDWithLock"} {
+		fd, err := cf.funcDecl("Context", m)
+		if err != nil {
+			return "", err
+		}
+		if fd.Recv == nil || len(fd.Recv.List) != 1 || len(fd.Recv.List[0].Names) != 1 {
+			return "", fmt.Errorf("%s: %s: receiver not recognised", cf.pos(fd), m)
+		}
+		recv := fd.Recv.List[0].Names[0].Name
+		var ev []string
+		deferred := map[ast.Node]bool{}
+		ast.Inspect(fd.Body, func(n ast.Node) bool {
+			if d, ok := n.(*ast.DeferStmt); ok {
+				deferred[d.Call] = true
+			}
+			call, isCall := n.(*ast.CallExpr)
+			if isCall {
+				// c.mu.Lock() etc.
+				if sel, ok := call.Fun.(*ast.SelectorExpr); ok {
+					if in, ok := sel.X.(*ast.SelectorExpr); ok {
+						if x, ok := in.X.(*ast.Ident); ok && x.Name == recv && in.Sel.Name == "mu" {
+							e := sel.Sel.Name
+							if deferred[call] {
+								e = "defer " + e
+							}
+							ev = append(ev, e)
+							return false
+						}
+					}
+					if x, ok := sel.X.(*ast.Ident); ok && x.Name == recv {
+						ev = append(ev, sel.Sel.Name+"()")
+						for _, a := range call.Args {
+							ast.Inspect(a, func(n ast.Node) bool {
+								if s, ok := n.(*ast.SelectorExpr); ok {
+									if x, ok := s.X.(*ast.Ident); ok && x.Name == recv {
+										ev = append(ev, "."+s.Sel.Name)
+									}
+								}
+								return true
+							})
+						}
+						return false
+					}
+				}
+				return true
+			}
+			if s, ok := n.(*ast.SelectorExpr); ok {
+				if x, ok := s.X.(*ast.Ident); ok && x.Name == recv {
+					ev = append(ev, "."+s.Sel.Name)
+					return false
+				}
+			}
+			return true
+		})
+		shapes = append(shapes, fmt.Sprintf("(%s, %s)", leanStr(m), leanStrList(ev)))
+	}
+	fmt.Fprintf(&b, "/-- every access of a Context method to its receiver, in source order: mutex operations, fields (`.f`), method calls (`M()`) -/\ndef lockShape : List (String × List String) :=\n  [%s]\n", strings.Join(shapes, ",\n   "))
 	return b.String(), nil
 }
